@@ -11,7 +11,9 @@ theorem verdict : (classify Generated.factsC02).Sound (Holds (cfgOf Generated.fa
 #print axioms recover_total_prefix
 #print axioms recover_maximal
 #print axioms append_after_recovery
+#print axioms second_crash_recovers
 #print axioms holds_of_repaired
+#print axioms Hv.BlockStore.run_started
 #print axioms torn_block_load_error
 #print axioms not_recovers_of_torn_error
 #print axioms torn_create_bricks
